@@ -97,7 +97,7 @@ impl<K, V> LockMap<K, V> {
     // R8 map-iteration schema: `m.values()` yields each value exactly once, order unspecified
     #[verifier::external_body]
     pub fn values(&self) -> (r: Vec<&V>)
-        ensures exists|keys: Seq<K>| values_of(self@, r@, keys),
+        ensures exists|keys: Seq<K>| values_of(self@, r@, keys), r@.len() == self@.len(), self@.dom().finite(),
     { unimplemented!() }
 }
 
